@@ -143,4 +143,49 @@ CHECKS = {
                  'statuses were learnt for the uploads in question; limit in force = max over the preceding 0.3 s'),
         'technique': 'deterministic simulation with scripted downloaders and settings changes + per-iteration invariants and bounded liveness',
     },
+    'C03': {
+        'category': 'exploration',
+        'text': ('micro world: a real Transfer in the real TransferManager with a recording state listener, a real local file and '
+                 'negotiation tasks that take plan-chosen virtual time to honour cancellation, file removal slowed through the '
+                 'simulated executor so the state lock is held across many loop iterations; from each of the 18 reachable start '
+                 'states 1-6 operations (queue/pause/abort/fail/complete/incomplete/initialize/start_transferring, through the state '
+                 'object as the library\'s call sites do and through the public manager API), 1-3 of them concurrent with offsets of '
+                 '0-6 loop iterations. Two axes are enumerated completely per batch (start state x operation x way of issuing; '
+                 'start state x leader x follower behind the lock). Oracle: notified edges are a chained path in the hand-transcribed '
+                 'graph (models/transfer_graph.py), result/notification agreement, no side effect of refused operations.'),
+        'design_ref': 'DESIGN.md section 3 (C03), appendix B.1',
+        'note': ('the graph is data in /verif, transcribed from the state classes and USAGE.rst (no disagreement found); the '
+                 'integrated variant (real negotiation against scripted peers) is exercised by C06/C04 runs, whose listeners are not '
+                 'judged against the graph here'),
+        'technique': 'deterministic simulation (virtual clock, slow cancellation and slow executor jobs, iteration-offset concurrent callers) + graph-path oracle',
+    },
+    'C17': {
+        'category': 'fault_enumeration',
+        'text': ('synthetic histories through the real TransferShelveCache on tmpfs: every state x direction x progress class x way '
+                 'of writing is enumerated completely per batch (240 plans); seeded lists of 0-8 transfers with colliding user/path '
+                 'concatenations, non-ASCII names, legacy pickles (no abort_reason, _offset, foreign keys) and write / mutate / remove '
+                 '/ write sequences; the first client is abandoned without stop() (process end after the last write) or stopped; a '
+                 'new client loads the same directory. Oracle: set equality with the last durable image, field equality, no '
+                 'in-progress state, cleared remote-queue marks, loaded transfers notify listeners and accept operations.'),
+        'design_ref': 'DESIGN.md section 3 (C17)',
+        'note': ('crash = abandoning the first client object after the last cache write (the cache is only written by explicit '
+                 'write/stop, so the durable image is exactly the last write); live scheduling after restart (C17.schedule) is not judged'),
+        'technique': 'deterministic simulation of process end at every persisted state (enumerated) + reload in a fresh client and reference-image comparison',
+    },
+    'C02': {
+        'category': 'exploration',
+        'text': ('one logged-in client with four inbound byte sources (server link, accepted clear P link, accepted obfuscated P '
+                 'link, accepted D link); per source 1-12 frames, each valid (all 87 message classes of the three families, built '
+                 'from the field metadata, stateful notifications repeated) or malformed with a correct length prefix (random, '
+                 'truncated, bit-flipped, lying counts, invalid UTF-8/cp1252, corrupt zlib, unknown code, empty, wrong family), '
+                 'under every TCP segmentation from 1-byte dribble to the whole list in one segment, interleaved sources, and '
+                 'teardown faults (truncated frame + EOF / silence, RST between frames, bad first frame). Oracle over the public '
+                 'event bus: valid frames delivered once, in order, equal; malformed frames yield <= 1 event and disturb nothing; '
+                 'a final probe frame proves the reader alive (or the link reached CLOSED within the read timeout); no task died; '
+                 'a wall-clock watchdog bounds one loop iteration (parse termination).'),
+        'design_ref': 'DESIGN.md section 3 (C02)',
+        'note': ('bodies <= 4 KiB; no F connections; server-link silence (600 s timeout shifted by pings) not injected; an '
+                 'unretrieved write error of a queued reply on a just-reset link is counted as a probe, not a violation'),
+        'technique': 'deterministic simulation (scripted byte sources over simulated TCP with segmentation and teardown faults) + delivery-history oracle',
+    },
 }
